@@ -16,7 +16,7 @@ import KiraModel.Exec.SuiteMixer
 import KiraModel.Exec.SuiteFxA
 import KiraModel.Exec.SuiteFxB
 
-open K.Exec K.Exec.Clock K.Exec.Wav
+open K.Exec K.Exec.Clock K.Exec.Wav K.Exec.FxA K.Exec.FxB K.Exec.Mix
 
 /-- A suite: state, initial state, step on a tokenised op line. `none` = unparsable op. -/
 structure Suite where
